@@ -17,6 +17,7 @@ import (
 	"errors"
 	"fmt"
 	"io"
+	"net"
 	"os"
 	"path/filepath"
 	"sort"
@@ -26,6 +27,7 @@ import (
 	"google.golang.org/protobuf/proto"
 
 	"github.com/mutagen-io/mutagen/pkg/encoding"
+	"github.com/mutagen-io/mutagen/pkg/forwarding"
 	"github.com/mutagen-io/mutagen/pkg/logging"
 	"github.com/mutagen-io/mutagen/pkg/selection"
 	"github.com/mutagen-io/mutagen/pkg/synchronization"
@@ -72,6 +74,11 @@ type harness struct {
 	timeout        bool
 	drift          int
 	closed         bool
+	fwd            bool // a forwarding session (fwd.go): records are prefixed with "F"
+	fmgr           *forwarding.Manager
+	fends          map[string]*fgated
+	fconns         []*countConn
+	fpeers         []net.Conn
 	t0             time.Time
 	connPlan       map[string][]string // scripted outcomes of the next dials per side (after the warm-up)
 	inShutdown     bool                // Manager.Shutdown of a restart is in progress (it waits for the loop, hence for gated operations)
@@ -95,7 +102,7 @@ func newHarness(cid string, real bool, mode string, dir string, w io.Writer) *ha
 			h.mu.Lock()
 			held := false
 			for _, t := range h.pending {
-				if t.op != "Poll" {
+				if !waitsForWorld(t.side, t.op) {
 					held = true
 				}
 			}
@@ -118,6 +125,11 @@ func (h *harness) emitLocked(rec map[string]any) {
 		return // the case is over: what the final clean-up does is not part of it
 	}
 	rec["cid"] = h.cid
+	if h.fwd {
+		if ev, ok := rec["ev"].(string); ok && ev[0] != 'F' {
+			rec["ev"] = "F" + ev
+		}
+	}
 	rec["t"] = int(time.Since(h.t0).Milliseconds()) // monotonic milliseconds since the case began
 	b, err := json.Marshal(rec)
 	if err != nil {
@@ -156,7 +168,7 @@ func (h *harness) enter(side, op string, gated bool, extra map[string]any) *toke
 	}
 	h.emitLocked(rec)
 	t := &token{side: side, op: op, n: n, release: make(chan string, 1), returned: make(chan struct{})}
-	if !gated || (h.auto && op != "Poll") {
+	if !gated || (h.auto && !waitsForWorld(side, op)) {
 		t.release <- "ok"
 		return t
 	}
@@ -222,13 +234,19 @@ func (h *harness) open(side, op, outcome string) bool {
 	return true
 }
 
+// waitsForWorld: operations that wait for something outside the session (a filesystem event, an incoming
+// connection); they are never let through automatically.
+func waitsForWorld(side, op string) bool {
+	return op == "Poll" || (op == "Open" && side == "source")
+}
+
 // setAuto(true) releases everything pending (except polls) and lets later operations pass.
 func (h *harness) setAuto(on bool) {
 	h.mu.Lock()
 	h.auto = on
 	var keep []*token
 	for _, t := range h.pending {
-		if on && t.op != "Poll" {
+		if on && !waitsForWorld(t.side, t.op) {
 			t.release <- "ok"
 		} else {
 			keep = append(keep, t)
@@ -243,7 +261,7 @@ func (h *harness) releasePending() {
 	h.mu.Lock()
 	var keep []*token
 	for _, t := range h.pending {
-		if t.op != "Poll" {
+		if !waitsForWorld(t.side, t.op) {
 			t.release <- "ok"
 			h.drift++
 		} else {
@@ -495,6 +513,9 @@ var modes = map[string]core.SynchronizationMode{
 }
 
 func (h *harness) exec(id int, kind string) error {
+	if h.fwd {
+		return h.execFwd(id, kind)
+	}
 	ctx := context.Background()
 	h.mu.Lock()
 	mgr := h.mgr
@@ -757,6 +778,10 @@ func (h *harness) stableEmit(read func() map[string]any) {
 
 // observe records both roots, the session and archive files, and what Manager.List says.
 func (h *harness) observe() {
+	if h.fwd {
+		h.observeFwd()
+		return
+	}
 	if h.restartInFlight() {
 		return
 	}
@@ -975,6 +1000,12 @@ func runCase(cs map[string]any, dir string, w io.Writer) {
 	os.Setenv("MUTAGEN_DATA_DIRECTORY", h.dataDir)
 	synchronization.ProtocolHandlers[urlpkg.Protocol_Local] = &handler{h}
 	h.auto = auto
+	if isFwd, _ := cs["fwd"].(bool); isFwd {
+		h.fwd = true
+		h.fends = map[string]*fgated{}
+		runFwdCase(cs, h)
+		return
+	}
 
 	init := vtree.Dec(cs["init"])
 	for _, side := range []string{"alpha", "beta"} {
